@@ -1091,4 +1091,7 @@ func checkC05(r *ev.Run) {
 			r.Sample(c.sample)
 		}
 	})
+	// proofs assembled from genuine parts (multi-field forgeries), see c05_forge.go
+	c05ConstructiveForgeries(r)
+	c05DuplicateStoreForgery(r)
 }
